@@ -12,6 +12,10 @@ pub struct Timestamp(pub u32);
 impl Timestamp {
     /// Returns the timestamp corresponding to “now”.
     pub fn now() -> Self {
+        #[cfg(rpm_verif)]
+        if let Some(t) = crate::verif_hooks::now_override() {
+            return Timestamp(t);
+        }
         SystemTime::now().try_into().unwrap()
     }
 }
